@@ -7,6 +7,8 @@ import FemtoVerif.Props.C01
 import FemtoVerif.Spec.C08
 import FemtoVerif.Props.C03
 import FemtoVerif.Gen.Data
+import FemtoVerif.Props.C11
+import FemtoVerif.Proofs.PathLemmas
 import Mathlib.Tactic.Ring
 import Mathlib.Tactic.Linarith
 import Mathlib.Tactic.NormNum
@@ -19,7 +21,7 @@ set_option linter.unusedSimpArgs false
 set_option linter.unusedVariables false
 
 namespace Femto.C08
-open Femto.Wr Femto.Gc Femto.Ctl
+open Femto.Wr Femto.Gc Femto.Ctl Femto.Pth
 
 /-! ### the order of the adjacent passes -/
 
@@ -513,6 +515,130 @@ theorem mk_scans_replayed (cfg : Cfg) (m : List Pt) (ws : List (G1W × Rat)) (n 
   · simp [execStmts, execStmt, step, s2]
   · simp [execStmts, execStmt, step, s3]
   · simp [execStmts, execStmt, step, s4]
+
+/-! ### what the builders hand to the writers -/
+
+/-- one straight segment of a builder chain: target / increment (entries may be `None`), mode, shutter 0 / 1, optional speed -/
+structure Seg where
+  dx : Option Rat
+  dy : Option Rat
+  dz : Option Rat
+  abs : Bool
+  opened : Bool
+  speed : Option Rat
+
+def runSegs (a : Attrs) : List Seg → Traj → Except PErr Traj
+  | [], t => .ok t
+  | s :: ss, t => match linear a s.dx s.dy s.dz s.abs (if s.opened then 1 else 0) s.speed t with
+    | .ok t' => runSegs a ss t'
+    | .error e => .error e
+
+/-- `start(p); linear(…) …; end()` on a fresh path -/
+def build (a : Attrs) (x y z : Rat) (sp : Option Rat) (segs : List Seg) : Except PErr Traj :=
+  match start a x y z sp [] with
+  | .ok t => match runSegs a segs t with
+    | .ok t' => finish a t'
+    | .error e => .error e
+  | .error e => .error e
+
+/-- the rows as the compiler model takes them -/
+def toPt (r : Row Rat) : Pt := ⟨r.x, r.y, r.z, r.f, r.s⟩
+
+theorem uf_head? {α : Type} [DecidableEq α] (l : List α) : (uniqueFilter l).head? = l.head? := by
+  cases l with
+  | nil => rfl
+  | cons x xs => simp [uniqueFilter, diffMask, applyMask]
+
+/-- invariant of a chain: non-empty, first row closed, marks 0 / 1 -/
+def ChainOK (t : Traj) : Prop := (∃ h rest, t = h :: rest ∧ h.s = 0) ∧ ∀ r ∈ t, r.s = 0 ∨ r.s = 1
+
+theorem linear_chainOK (a : Attrs) (s : Seg) (t t' : Traj) (h : ChainOK t)
+    (hl : linear a s.dx s.dy s.dz s.abs (if s.opened then 1 else 0) s.speed t = .ok t') : ChainOK t' := by
+  unfold linear at hl
+  cases hg : t.getLast? with
+  | none => rw [hg] at hl; cases hl
+  | some l =>
+    rw [hg] at hl
+    simp only at hl
+    injection hl with hl
+    subst hl
+    obtain ⟨⟨h0, rest, rfl, hs0⟩, hm⟩ := h
+    refine ⟨⟨h0, rest ++ [_], List.cons_append, hs0⟩, ?_⟩
+    intro r hr
+    rcases List.mem_append.mp hr with hr | hr
+    · exact hm r hr
+    · simp only [List.mem_singleton] at hr
+      subst hr
+      cases s.opened <;> simp
+
+theorem runSegs_chainOK (a : Attrs) (segs : List Seg) : ∀ t t', ChainOK t → runSegs a segs t = .ok t' → ChainOK t' := by
+  induction segs with
+  | nil => intro t t' h hr; simp only [runSegs] at hr; injection hr with hr; subst hr; exact h
+  | cons s ss ih =>
+    intro t t' h hr
+    simp only [runSegs] at hr
+    cases hl : linear a s.dx s.dy s.dz s.abs (if s.opened then 1 else 0) s.speed t with
+    | error e => rw [hl] at hr; cases hr
+    | ok t1 => rw [hl] at hr; exact ih t1 t' (linear_chainOK a s t t1 h hl) hr
+
+/-- **what the builders hand to the writers.** Every path built by `start`, any number of straight segments (absolute or
+incremental, entries left out, shutter open or closed, any speeds) and `end` reports a point matrix that is non-empty, starts
+with the shutter closed, carries only the marks 0 / 1 and ends with the shutter closed — the hypotheses of `write_replays`
+(C01: marks; first point reached closed) and of `group_scans_replayed` / `wg_file_replayed` (`endsClosed`). -/
+theorem built_closed (a : Attrs) (x y z : Rat) (sp : Option Rat) (segs : List Seg) (t : Traj)
+    (hb : build a x y z sp segs = .ok t) :
+    let m := (points t).map toPt
+    m ≠ [] ∧ (∀ p ∈ m, p.s = 0 ∨ p.s = 1) ∧ (∃ p, m.head? = some p ∧ p.s = 0) ∧ (∃ p, m.getLast? = some p ∧ p.s = 0) := by
+  unfold build at hb
+  have hs : start a x y z sp [] = .ok [⟨x, y, z, sp.getD a.speedPos, 0⟩, ⟨x, y, z, sp.getD a.speedPos, 1⟩] := by simp [start]
+  rw [hs] at hb
+  simp only at hb
+  cases hr : runSegs a segs [⟨x, y, z, sp.getD a.speedPos, 0⟩, ⟨x, y, z, sp.getD a.speedPos, 1⟩] with
+  | error e => rw [hr] at hb; cases hb
+  | ok t1 =>
+    rw [hr] at hb
+    simp only at hb
+    have h0 : ChainOK [⟨x, y, z, sp.getD a.speedPos, 0⟩, (⟨x, y, z, sp.getD a.speedPos, 1⟩ : Row Rat)] :=
+      ⟨⟨_, _, rfl, rfl⟩, by intro r hr; simp at hr; rcases hr with rfl | rfl <;> simp⟩
+    obtain ⟨⟨h, rest, rfl, hs0⟩, hm⟩ := runSegs_chainOK a segs _ t1 h0 hr
+    unfold finish at hb
+    cases hl : (h :: rest).getLast? with
+    | none => simp at hl
+    | some l =>
+      rw [hl] at hb
+      simp only [List.head?_cons] at hb
+      injection hb with hb
+      subst hb
+      intro m
+      have hmem : ∀ r ∈ h :: rest ++ [⟨l.x, l.y, l.z, l.f, 0⟩, (⟨h.x, h.y, h.z, a.speedClosed, 0⟩ : Row Rat)], r.s = 0 ∨ r.s = 1 := by
+        intro r hr
+        rcases List.mem_append.mp hr with hr | hr
+        · exact hm r hr
+        · simp at hr; rcases hr with rfl | rfl <;> simp
+      have hhead : m.head? = some (toPt h) := by
+        simp only [m, points, List.head?_map, uf_head?]; rfl
+      have hlast : m.getLast? = some (toPt ⟨h.x, h.y, h.z, a.speedClosed, 0⟩) := by
+        simp only [m, points, List.getLast?_map, Femto.C11.uf_getLast?]
+        rw [List.getLast?_append]
+        rfl
+      refine ⟨?_, ?_, ⟨_, hhead, hs0⟩, ⟨_, hlast, rfl⟩⟩
+      · intro he; rw [he] at hhead; simp at hhead
+      · intro p hp
+        simp only [m, List.mem_map] at hp
+        obtain ⟨r, hr, rfl⟩ := hp
+        exact hmem r ((Femto.C11.uf_sublist _).subset hr)
+
+
+/-- the hypotheses of `group_scans_replayed` on the members of a group hold for every path the builders produce -/
+theorem built_group_hyps (a : Attrs) (x y z : Rat) (sp : Option Rat) (segs : List Seg) (t : Traj)
+    (hb : build a x y z sp segs = .ok t) :
+    (∀ p ∈ (points t).map toPt, p.s = 0 ∨ p.s = 1) ∧ endsClosed ((points t).map toPt) := by
+  obtain ⟨_, h2, _, ⟨p, h4, h5⟩⟩ := built_closed a x y z sp segs t hb
+  refine ⟨h2, ?_⟩
+  intro q hq
+  rw [h4] at hq
+  injection hq with hq
+  rw [← hq]; exact h5
 
 /-! ### the whole file -/
 
